@@ -230,7 +230,12 @@ func (server *SugarDB) handleCommand(ctx context.Context, message []byte, conn *
 		verifhook.Yield("cmd.after_handler")
 		if internal.IsWriteCommand(command, subCommand) && !replay {
 			// Log the command under the database it was executed in (TCP and embedded callers alike).
-			server.aofEngine.LogCommand(ctx.Value("Database").(int), message)
+			// A command that could not be appended to the log must not be acknowledged: it would be
+			// missing after a restart.
+			if err = server.aofEngine.LogCommand(ctx.Value("Database").(int), message); err != nil {
+				return nil, fmt.Errorf("%s was executed but could not be written to the append-only file: %v",
+					strings.ToLower(cmd[0]), err)
+			}
 		}
 
 		verifhook.Yield("cmd.after_log")
